@@ -439,6 +439,14 @@ void DOMParentNode::normalize()
             next = kid; // Don't advance; there might be another.
         }
 
+        // A Text node that is (or has ended up) empty is removed
+        else if (kid->getNodeType() == DOMNode::TEXT_NODE)
+        {
+            const XMLCh* value = kid->getNodeValue();
+            if (value == 0 || *value == 0)
+                removeChild(kid);
+        }
+
         // Otherwise it might be an Element, which is handled recursively
         else
             if (kid->getNodeType() == DOMNode::ELEMENT_NODE)
